@@ -278,3 +278,90 @@ Theorem generated_scratch_write_separates :
   forall t1 t2 j1 j2 : nat, t1 <> t2 -> j1 <> j2 ->
     map (inst_idx t1 j1) (g_idx a) <> map (inst_idx t2 j2) (g_idx a).
 Proof. exact expanded_write_separates. Qed.
+
+(* ======================================================================================
+   Round 5 — the CLASS "an error does not come back through the pool".
+   On the zero-value pool AddJob / AddRangeJob run the jobs inline and return the job's error; on a real
+   pool they return nil and the error reaches the caller ONLY through the result of Wait(g); from there
+   it travels up the call chain, and below the pool out of the job closure.  ModelErrFlow.flow is the
+   error status of one scope (function, job closure) given what happens to each error result. *)
+From ADV Require Import C17.ModelErrFlow C17.ProofsErrFlow C17.ErrFlow_gen C17.ProofsErrFlowGen.
+
+(* (3') if every error result of the scope is propagated and every queued group is waited for, the scope
+   returns an error IFF some job or callee failed - on the zero-value pool and on every real pool, for
+   every execution order of the jobs, whether or not they poll erf() (timely setError assumed, see
+   threadpool_late_error_refuted) *)
+Theorem error_status_is_some_job_failed :
+  forall (one polls : bool) (ops : list xop),
+    Forall (fun o => xprop o = true) ops -> Forall scheduled ops -> closed ops false = true ->
+    flow one polls ops false = some_failure ops.
+Proof. exact errflow_exact. Qed.
+
+(* hence the error status of the parallel run is that of the sequential run: independent of the pool
+   (zero-value or real), of the schedule and of polling *)
+Theorem error_status_is_pool_and_schedule_independent :
+  forall (ops1 ops2 : list xop) (one1 one2 polls1 polls2 : bool),
+    Forall2 same_op ops1 ops2 ->
+    Forall (fun o => xprop o = true) ops1 -> Forall scheduled ops1 -> Forall scheduled ops2 -> closed ops1 false = true ->
+    flow one1 polls1 ops1 false = flow one2 polls2 ops2 false.
+Proof. exact errflow_pool_independent. Qed.
+
+(* the regression class as theorems.  Wait's result dropped: for EVERY failing job list the sequential
+   run reports the error and every real pool, under every schedule, returns nil *)
+Theorem wait_result_discarded_refuted :
+  forall (polls : bool) (jobs order : list bool),
+    existsb (fun b => b) jobs = true ->
+    flow true polls [XAdd true jobs order; XWait false] false = true /\
+    flow false polls [XAdd true jobs order; XWait false] false = false.
+Proof. exact wait_discarded. Qed.
+
+(* KNOWN FINDING F-SHAPEHMM-ADDJOB-DISCARDED (matrixEstimator/shapeHmm_data.go:115): AddRangeJob's result
+   dropped, Wait's tested - the other way round: silent on the zero-value pool, an error on every real pool *)
+Theorem addjob_result_discarded_refuted :
+  forall (polls : bool) (jobs order : list bool),
+    Permutation jobs order -> existsb (fun b => b) jobs = true ->
+    flow true polls [XAdd false jobs order; XWait true] false = false /\
+    flow false polls [XAdd false jobs order; XWait true] false = true.
+Proof. exact add_discarded. Qed.
+
+(* KNOWN FINDING F-NUMERIC-ERR-DISCARDED (scalarEstimator/numeric.go:117,143): both dropped - silent on every pool *)
+Theorem both_results_discarded_refuted :
+  forall (one polls : bool) (jobs order : list bool),
+    flow one polls [XAdd false jobs order; XWait false] false = false.
+Proof. exact both_discarded. Qed.
+
+(* a scope that propagates none of its error results never fails (a job closure that drops the error of the
+   component estimator; KNOWN FINDING F-BATCH-ERR-DISCARDED: logTransform.go / translation.go / vector normal.go) *)
+Theorem nothing_propagated_refuted :
+  forall (one polls : bool) (ops : list xop) (slot : bool),
+    Forall (fun o => xprop o = false) ops -> flow one polls ops slot = false.
+Proof. exact nothing_propagated_never_fails. Qed.
+
+(* decided on the SOURCE (ErrFlow_gen.v, regenerated by go2coq_c17 -errflow on every run): in every job closure,
+   every function above a pool operation and every error-returning function called from a job, each call that
+   carries an error returns it (tested != nil and returned, or operand of a return) or cannot fail (its
+   declaration returns the literal nil on every path) - except the losses listed in ModelErrFlow.known_losses,
+   each of which is still present; the pool call sites of the anchored files are in the inventory *)
+Theorem generated_error_results_are_propagated :
+  forallb escope_ok gen_errscopes = true /\
+  errflow_coverage gen_errscopes = true /\
+  forallb (known_present gen_errscopes) known_losses = true.
+Proof. exact (conj gen_errscopes_ok (conj gen_errflow_coverage gen_known_present)). Qed.
+
+(* so for every scope of the inventory whose results are all returned (at least 40 scopes with pool operations
+   are), whatever fails at run time: the scope reports it, on every pool and schedule *)
+Theorem generated_clean_scopes_report_every_failure :
+  Nat.leb 40 (List.length clean_pool_scopes) = true /\
+  forallb (fun s => forallb propagated (es_ops s)) clean_pool_scopes = true /\
+  forall s, forallb propagated (es_ops s) = true ->
+    forall fs one polls, closed (instantiate_scope s fs) false = true ->
+      flow one polls (instantiate_scope s fs) false = some_failure (instantiate_scope s fs).
+Proof. exact (conj gen_clean_pool_scopes_many (conj clean_pool_scopes_are_clean gen_clean_scope_exact)). Qed.
+
+(* the hypotheses are satisfiable: Emissions of the vector HMM (AddRangeJob; Wait, both returned), component 1 of 3
+   fails, executed last on a real pool: reported on both pools; with Wait dropped only sequentially *)
+Example emissions_error_example :
+  flow true true [XAdd true [false; true; false] [false; false; true]; XWait true] false = true /\
+  flow false true [XAdd true [false; true; false] [false; false; true]; XWait true] false = true /\
+  flow false true [XAdd true [false; true; false] [false; false; true]; XWait false] false = false.
+Proof. exact emissions_error_example_proof. Qed.
